@@ -127,4 +127,450 @@ example : Tri3Ok (⟨⟨0, 0, 0⟩, ⟨4, 0, 0⟩, ⟨0, 3, 1⟩⟩ : Triangle3 
   refine ⟨by simp only [Tri3Ok]; norm_num, ⟨1/4, 1/3, by norm_num, by norm_num, by norm_num, ?_⟩⟩
   simp only [V3.add, V3.sub, V3.smul]; norm_num
 
+/-! ## Cone (`point_cone.rs`): apex `(0,hh,0)`, base disc of radius `r` in the plane `y = -hh`
+
+The code works in the half-plane through the axis and the query point: it projects on the base (`y < -hh`, `ρ ≤ r`) or on the
+slanted segment apex → rim point `(r·d, -hh)`, `d` the radial unit direction; an interior point with `solid = false` takes the
+nearer of the two. -/
+
+/-- domain: positive half-height, radius at least `ε = 2⁻⁵²` -/
+def ConeOk (s : Cone K) : Prop := 0 < s.hh ∧ ((mkRat 1 4503599627370496 : ℚ) : K) ≤ s.r
+/-- the radial distance of the query point is `0` or `> ε` (below `ε` the code substitutes the direction `(1,0)`) -/
+def RadOk (p : V3 K) : Prop :=
+  p.x * p.x + p.z * p.z = 0 ∨ ((mkRat 1 4503599627370496 : ℚ) : K) * ((mkRat 1 4503599627370496 : ℚ) : K) < p.x * p.x + p.z * p.z
+/-- surface of the cone: a member on the base plane or on the lateral surface -/
+def ConeBnd (s : Cone K) (x : V3 K) : Prop :=
+  letI := fieldNum K sq
+  s.Mem x ∧ (x.y = -s.hh ∨ (x.x * x.x + x.z * x.z) * ((2 * s.hh) * (2 * s.hh)) = (s.r * s.r) * ((s.hh - x.y) * (s.hh - x.y)))
+
+/-- the radial direction used by the code: a unit vector, equal to `(x,z)/ρ` when `ρ > ε` -/
+private theorem cone_dir (hs : LawfulSqrt sq) (x z : K) :
+    letI := fieldNum K sq
+    0 ≤ (⟨x, z⟩ : V2 K).norm ∧ (⟨x, z⟩ : V2 K).norm * (⟨x, z⟩ : V2 K).norm = x * x + z * z ∧
+    ((if (⟨x, z⟩ : V2 K).norm ≤ eps then (⟨1, 0⟩ : V2 K) else (⟨x, z⟩ : V2 K).sdiv (⟨x, z⟩ : V2 K).norm).normSq = 1) ∧
+    (((mkRat 1 4503599627370496 : ℚ) : K) < (⟨x, z⟩ : V2 K).norm →
+      x = (if (⟨x, z⟩ : V2 K).norm ≤ eps then (⟨1, 0⟩ : V2 K) else (⟨x, z⟩ : V2 K).sdiv (⟨x, z⟩ : V2 K).norm).x * (⟨x, z⟩ : V2 K).norm ∧
+      z = (if (⟨x, z⟩ : V2 K).norm ≤ eps then (⟨1, 0⟩ : V2 K) else (⟨x, z⟩ : V2 K).sdiv (⟨x, z⟩ : V2 K).norm).y * (⟨x, z⟩ : V2 K).norm) := by
+  letI := fieldNum K sq
+  have he := eps_pos (K := K)
+  have hnn : 0 ≤ x * x + z * z := by nlinarith [mul_self_nonneg x, mul_self_nonneg z]
+  have h2 := hs.sq_mul _ hnn
+  have h0 := hs.nonneg _ hnn
+  have hnorm : (⟨x, z⟩ : V2 K).norm = sq (x * x + z * z) := by
+    simp only [V2.norm, V2.normSq, V2.dot, fieldNum_sqrt]
+  have heps : (eps : K) = ((mkRat 1 4503599627370496 : ℚ) : K) := by simp only [eps, fieldNum_lit]
+  by_cases c : (⟨x, z⟩ : V2 K).norm ≤ eps
+  · rw [if_pos c]
+    rw [hnorm, heps] at c
+    rw [hnorm]
+    exact ⟨h0, h2, by simp [V2.normSq, V2.dot], fun c' => absurd c (not_le.mpr c')⟩
+  · rw [if_neg c]
+    rw [hnorm, heps] at c
+    rw [hnorm]
+    push Not at c
+    have hne : sq (x * x + z * z) ≠ 0 := ne_of_gt (lt_trans he c)
+    refine ⟨h0, h2, ?_, fun _ => ?_⟩
+    · simp only [V2.sdiv, V2.normSq, V2.dot]
+      rw [div_mul_div_comm, div_mul_div_comm, ← add_div, h2]
+      exact div_self (by rw [← h2]; exact mul_self_ne_zero.mpr hne)
+    · simp only [V2.sdiv]
+      exact ⟨(div_mul_cancel₀ x hne).symm, (div_mul_cancel₀ z hne).symm⟩
+
+/-- structural description of `Cone::project_local_point`: radial distance `ρ`, radial unit direction `d`, the slanted segment
+`apex → (r·d, -hh)` with the segment projection `P` of the query point, and which of the five result shapes was produced. -/
+private theorem cone_cases (hs : LawfulSqrt sq) (s : Cone K) (p : V3 K) (solid : Bool) :
+    letI := fieldNum K sq
+    ∃ (ρ : K) (d : V2 K), 0 ≤ ρ ∧ ρ * ρ = p.x * p.x + p.z * p.z ∧ d.normSq = 1 ∧
+      (((mkRat 1 4503599627370496 : ℚ) : K) < ρ → p.x = d.x * ρ ∧ p.z = d.y * ρ) ∧
+      ((p.y < -s.hh ∧ ρ ≤ s.r ∧ s.project p solid = ⟨false, ⟨p.x, -s.hh, p.z⟩⟩) ∨
+       (¬(p.y < -s.hh ∧ ρ ≤ s.r) ∧
+        ((-s.hh ≤ p.y ∧ p.y ≤ s.hh ∧
+            0 ≤ ((((⟨d.x * s.r, -s.hh, d.y * s.r⟩ : V3 K).sub ⟨0, s.hh, 0⟩).cross (p.sub ⟨0, s.hh, 0⟩)).dot
+              (((⟨d.x * s.r, -s.hh, d.y * s.r⟩ : V3 K).sub ⟨0, s.hh, 0⟩).cross ⟨0, -2 * s.hh, 0⟩))) ∧
+          ((solid = true ∧ s.project p solid = ⟨true, p⟩) ∨
+           (solid = false ∧
+              ((⟨p.x, -s.hh, p.z⟩ : V3 K).sub p).normSq < (((⟨⟨0, s.hh, 0⟩, ⟨d.x * s.r, -s.hh, d.y * s.r⟩⟩ : Segment3 K).projectLoc p).1.pt.sub p).normSq ∧
+              s.project p solid = ⟨true, ⟨p.x, -s.hh, p.z⟩⟩) ∨
+           (solid = false ∧
+              ¬ ((⟨p.x, -s.hh, p.z⟩ : V3 K).sub p).normSq < (((⟨⟨0, s.hh, 0⟩, ⟨d.x * s.r, -s.hh, d.y * s.r⟩⟩ : Segment3 K).projectLoc p).1.pt.sub p).normSq ∧
+              s.project p solid = ⟨true, ((⟨⟨0, s.hh, 0⟩, ⟨d.x * s.r, -s.hh, d.y * s.r⟩⟩ : Segment3 K).projectLoc p).1.pt⟩)) ∨
+         (¬(-s.hh ≤ p.y ∧ p.y ≤ s.hh ∧
+            0 ≤ ((((⟨d.x * s.r, -s.hh, d.y * s.r⟩ : V3 K).sub ⟨0, s.hh, 0⟩).cross (p.sub ⟨0, s.hh, 0⟩)).dot
+              (((⟨d.x * s.r, -s.hh, d.y * s.r⟩ : V3 K).sub ⟨0, s.hh, 0⟩).cross ⟨0, -2 * s.hh, 0⟩))) ∧
+          s.project p solid = ((⟨⟨0, s.hh, 0⟩, ⟨d.x * s.r, -s.hh, d.y * s.r⟩⟩ : Segment3 K).projectLoc p).1)))) := by
+  letI := fieldNum K sq
+  obtain ⟨f1, f2, f3, f4⟩ := cone_dir sq hs p.x p.z
+  generalize hres : s.project p solid = res
+  dsimp only [Cone.project] at hres
+  generalize (⟨p.x, p.z⟩ : V2 K).norm = ρ at *
+  generalize (if ρ ≤ eps then (⟨1, 0⟩ : V2 K) else (⟨p.x, p.z⟩ : V2 K).sdiv ρ) = d at *
+  refine ⟨ρ, d, f1, f2, f3, f4, ?_⟩
+  have h2 : (two : K) = 2 := fieldNum_two sq
+  split_ifs at hres with c1 c2 c3 c4 <;> subst hres
+  · exact Or.inl ⟨c1.1, c1.2, rfl⟩
+  · refine Or.inr ⟨c1, Or.inl ⟨?_, Or.inl ⟨c3, rfl⟩⟩⟩
+    simpa [V2.smul, h2] using c2
+  · refine Or.inr ⟨c1, Or.inl ⟨?_, Or.inr (Or.inl ⟨by simpa using c3, c4, rfl⟩)⟩⟩
+    simpa [V2.smul, h2] using c2
+  · refine Or.inr ⟨c1, Or.inl ⟨?_, Or.inr (Or.inr ⟨by simpa using c3, c4, rfl⟩)⟩⟩
+    simpa [V2.smul, h2] using c2
+  · refine Or.inr ⟨c1, Or.inr ⟨?_, rfl⟩⟩
+    simpa [V2.smul, h2] using c2
+
+/-- membership in the cone in the radial half-plane: `-hh ≤ y ≤ hh` and `2hh·ρ ≤ r(hh - y)` -/
+private theorem cone_mem_iff (s : Cone K) (p : V3 K) (ρ : K) (h0 : 0 ≤ ρ) (h2 : ρ * ρ = p.x * p.x + p.z * p.z)
+    (hh0 : 0 < s.hh) (hr0 : 0 ≤ s.r) :
+    letI := fieldNum K sq
+    s.Mem p ↔ (-s.hh ≤ p.y ∧ p.y ≤ s.hh) ∧ 2 * s.hh * ρ ≤ s.r * (s.hh - p.y) := by
+  letI := fieldNum K sq
+  simp only [Cone.Mem, fieldNum_two]
+  constructor
+  · rintro ⟨⟨a, b⟩, c⟩
+    refine ⟨⟨a, b⟩, ?_⟩
+    apply le_of_mul_self_le (mul_nonneg hr0 (by linarith))
+    rw [← h2] at c
+    nlinarith
+  · rintro ⟨⟨a, b⟩, c⟩
+    refine ⟨⟨a, b⟩, ?_⟩
+    rw [← h2]
+    have := mul_self_le_mul_self (by positivity) c
+    nlinarith
+
+/-- the code's inside test `(segDir × (pt - apex))·(segDir × apexToBasis) ≥ 0` in closed form -/
+private theorem cone_crossdot (s : Cone K) (d : V2 K) (p : V3 K) :
+    letI := fieldNum K sq
+    d.normSq = 1 →
+    ((((⟨d.x * s.r, -s.hh, d.y * s.r⟩ : V3 K).sub ⟨0, s.hh, 0⟩).cross (p.sub ⟨0, s.hh, 0⟩)).dot
+      (((⟨d.x * s.r, -s.hh, d.y * s.r⟩ : V3 K).sub ⟨0, s.hh, 0⟩).cross ⟨0, -2 * s.hh, 0⟩))
+      = 2 * s.hh * s.r * (s.r * (s.hh - p.y) - 2 * s.hh * (d.x * p.x + d.y * p.z)) := by
+  letI := fieldNum K sq
+  intro hd
+  simp only [V3.cross, V3.dot, V3.sub, V2.normSq, V2.dot] at *
+  linear_combination (2 * s.hh * s.r * s.r * (s.hh - p.y)) * hd
+
+/-- with `RadOk`, the radial component of the query point along `d` is `ρ` -/
+private theorem cone_radial (p : V3 K) (ρ : K) (d : V2 K) (h0 : 0 ≤ ρ) (h2 : ρ * ρ = p.x * p.x + p.z * p.z)
+    (hd : d.x * d.x + d.y * d.y = 1)
+    (hdir : ((mkRat 1 4503599627370496 : ℚ) : K) < ρ → p.x = d.x * ρ ∧ p.z = d.y * ρ) (hrad : RadOk p) :
+    p.x = d.x * ρ ∧ p.z = d.y * ρ := by
+  have he := eps_pos (K := K)
+  rcases hrad with hz | hz
+  · have hρ : ρ = 0 := by
+      have : ρ * ρ = 0 := by rw [h2, hz]
+      exact mul_self_eq_zero.mp this
+    obtain ⟨ex, ez⟩ := sumsq2_eq_zero (le_of_eq hz)
+    rw [hρ, ex, ez]; simp
+  · apply hdir
+    by_contra hcon; push Not at hcon
+    have := mul_self_le_mul_self h0 hcon
+    rw [h2] at this; linarith
+
+/-- facts about the projection `P` of `p = (ρ·d, y)` on the slanted segment `apex → (r·d, -hh)`: it is the point of parameter
+`τ ∈ [0,1]`, it satisfies the variational inequality against every segment point, and no segment point is closer. -/
+private theorem cone_seg_facts (s : Cone K) (p : V3 K) (ρ : K) (d : V2 K) (hd : d.x * d.x + d.y * d.y = 1)
+    (hx : p.x = d.x * ρ) (hz : p.z = d.y * ρ) :
+    letI := fieldNum K sq
+    ∃ τ : K, 0 ≤ τ ∧ τ ≤ 1 ∧
+      ((⟨⟨0, s.hh, 0⟩, ⟨d.x * s.r, -s.hh, d.y * s.r⟩⟩ : Segment3 K).projectLoc p).1.pt = ⟨d.x * s.r * τ, s.hh - 2 * s.hh * τ, d.y * s.r * τ⟩ ∧
+      (∀ t : K, 0 ≤ t → t ≤ 1 → (t - τ) * ((ρ - s.r * τ) * s.r - 2 * s.hh * (p.y - s.hh + 2 * s.hh * τ)) ≤ 0) ∧
+      (∀ t : K, 0 ≤ t → t ≤ 1 →
+        dsq3 p ((⟨⟨0, s.hh, 0⟩, ⟨d.x * s.r, -s.hh, d.y * s.r⟩⟩ : Segment3 K).projectLoc p).1.pt
+          ≤ dsq3 p ⟨d.x * s.r * t, s.hh - 2 * s.hh * t, d.y * s.r * t⟩) := by
+  letI := fieldNum K sq
+  have hmem := seg3_project_mem sq (⟨⟨0, s.hh, 0⟩, ⟨d.x * s.r, -s.hh, d.y * s.r⟩⟩ : Segment3 K) p
+  have hvar := seg3_project_variational sq (⟨⟨0, s.hh, 0⟩, ⟨d.x * s.r, -s.hh, d.y * s.r⟩⟩ : Segment3 K) p
+  have hopt := seg3_project_optimal sq (⟨⟨0, s.hh, 0⟩, ⟨d.x * s.r, -s.hh, d.y * s.r⟩⟩ : Segment3 K) p
+  obtain ⟨τ, h0, h1, hP⟩ := hmem
+  have hP' : ((⟨⟨0, s.hh, 0⟩, ⟨d.x * s.r, -s.hh, d.y * s.r⟩⟩ : Segment3 K).projectLoc p).1.pt
+      = ⟨d.x * s.r * τ, s.hh - 2 * s.hh * τ, d.y * s.r * τ⟩ := by
+    rw [hP]; apply v3_ext <;> simp only [V3.add, V3.sub, V3.smul] <;> ring
+  have hq : ∀ t : K, 0 ≤ t → t ≤ 1 → (⟨⟨0, s.hh, 0⟩, ⟨d.x * s.r, -s.hh, d.y * s.r⟩⟩ : Segment3 K).Mem ⟨d.x * s.r * t, s.hh - 2 * s.hh * t, d.y * s.r * t⟩ :=
+    fun t a b => ⟨t, a, b, by apply v3_ext <;> simp only [V3.add, V3.sub, V3.smul] <;> ring⟩
+  refine ⟨τ, h0, h1, hP', ?_, ?_⟩
+  · intro t a b
+    have := hvar _ (hq t a b)
+    rw [hP'] at this
+    simp only [V3.dot, V3.sub] at this
+    rw [hx, hz] at this
+    have e : (d.x * ρ - d.x * s.r * τ) * (d.x * s.r * t - d.x * s.r * τ) + (p.y - (s.hh - 2 * s.hh * τ)) * (s.hh - 2 * s.hh * t - (s.hh - 2 * s.hh * τ))
+        + (d.y * ρ - d.y * s.r * τ) * (d.y * s.r * t - d.y * s.r * τ)
+        = (t - τ) * ((ρ - s.r * τ) * s.r - 2 * s.hh * (p.y - s.hh + 2 * s.hh * τ)) := by
+      linear_combination ((t - τ) * (ρ - s.r * τ) * s.r) * hd
+    rw [e] at this; exact this
+  · intro t a b
+    exact hopt _ (hq t a b)
+
+/-- clean five-case description of `Cone::project_local_point` for a query point with `RadOk`: the point is `(ρ·d, y)`; `P`, the
+projection on the slanted segment, is `(r τ·d, hh - 2hh τ)` with `τ ∈ [0,1]`; and the result is
+(A) the base point below a point under the base disc, (B) `p` itself (member, solid), (C)/(D) the nearer of base point / `P`
+(member, hollow), (E) `P` (non-member). -/
+private theorem cone_shape (hs : LawfulSqrt sq) (s : Cone K) (p : V3 K) (solid : Bool) (hok : ConeOk s) (hrad : RadOk p) :
+    letI := fieldNum K sq
+    ∃ (ρ : K) (d : V2 K) (τ : K) (Ppt : V3 K) (Pin : Bool), 0 ≤ ρ ∧ ρ * ρ = p.x * p.x + p.z * p.z ∧ d.x * d.x + d.y * d.y = 1 ∧
+      p.x = d.x * ρ ∧ p.z = d.y * ρ ∧ 0 ≤ τ ∧ τ ≤ 1 ∧ Ppt = ⟨d.x * s.r * τ, s.hh - 2 * s.hh * τ, d.y * s.r * τ⟩ ∧
+      (∀ t : K, 0 ≤ t → t ≤ 1 → (t - τ) * ((ρ - s.r * τ) * s.r - 2 * s.hh * (p.y - s.hh + 2 * s.hh * τ)) ≤ 0) ∧
+      (∀ t : K, 0 ≤ t → t ≤ 1 → dsq3 p Ppt ≤ dsq3 p ⟨d.x * s.r * t, s.hh - 2 * s.hh * t, d.y * s.r * t⟩) ∧
+      (s.Mem p ↔ (-s.hh ≤ p.y ∧ p.y ≤ s.hh) ∧ 2 * s.hh * ρ ≤ s.r * (s.hh - p.y)) ∧
+      (Pin = V3.relEq Ppt p) ∧
+      ((p.y < -s.hh ∧ ρ ≤ s.r ∧ s.project p solid = ⟨false, ⟨p.x, -s.hh, p.z⟩⟩) ∨
+       (¬(p.y < -s.hh ∧ ρ ≤ s.r) ∧ s.Mem p ∧ solid = true ∧ s.project p solid = ⟨true, p⟩) ∨
+       (¬(p.y < -s.hh ∧ ρ ≤ s.r) ∧ s.Mem p ∧ solid = false ∧ dsq3 p ⟨p.x, -s.hh, p.z⟩ < dsq3 p Ppt ∧
+          s.project p solid = ⟨true, ⟨p.x, -s.hh, p.z⟩⟩) ∨
+       (¬(p.y < -s.hh ∧ ρ ≤ s.r) ∧ s.Mem p ∧ solid = false ∧ dsq3 p Ppt ≤ dsq3 p ⟨p.x, -s.hh, p.z⟩ ∧
+          s.project p solid = ⟨true, Ppt⟩) ∨
+       (¬(p.y < -s.hh ∧ ρ ≤ s.r) ∧ ¬ s.Mem p ∧ s.project p solid = ⟨Pin, Ppt⟩)) := by
+  letI := fieldNum K sq
+  have he := eps_pos (K := K)
+  have hr0 : 0 ≤ s.r := le_trans he.le hok.2
+  have hrpos : 0 < s.r := lt_of_lt_of_le he hok.2
+  obtain ⟨ρ, d, h0, h2, hd, hdir, hc⟩ := cone_cases sq hs s p solid
+  simp only [V2.normSq, V2.dot] at hd
+  obtain ⟨hx, hz⟩ := cone_radial p ρ d h0 h2 hd hdir hrad
+  obtain ⟨τ, t0, t1, hP, hvar, hopt⟩ := cone_seg_facts sq s p ρ d hd hx hz
+  have hmem := cone_mem_iff sq s p ρ h0 h2 hok.1 hr0
+  have hcd := cone_crossdot sq s d p (by simpa [V2.normSq, V2.dot] using hd)
+  have hdp : d.x * p.x + d.y * p.z = ρ := by rw [hx, hz]; linear_combination ρ * hd
+  -- the code's inside test is membership
+  have hin : (-s.hh ≤ p.y ∧ p.y ≤ s.hh ∧
+      0 ≤ ((((⟨d.x * s.r, -s.hh, d.y * s.r⟩ : V3 K).sub ⟨0, s.hh, 0⟩).cross (p.sub ⟨0, s.hh, 0⟩)).dot
+        (((⟨d.x * s.r, -s.hh, d.y * s.r⟩ : V3 K).sub ⟨0, s.hh, 0⟩).cross ⟨0, -2 * s.hh, 0⟩))) ↔ s.Mem p := by
+    rw [hmem, hcd, hdp]
+    have hpos : 0 < 2 * s.hh * s.r := mul_pos (by linarith [hok.1]) hrpos
+    constructor
+    · rintro ⟨a, b, c⟩
+      refine ⟨⟨a, b⟩, ?_⟩
+      by_contra hcon; push Not at hcon
+      have := mul_neg_of_pos_of_neg hpos (by linarith : s.r * (s.hh - p.y) - 2 * s.hh * ρ < 0)
+      linarith
+    · rintro ⟨⟨a, b⟩, c⟩
+      exact ⟨a, b, mul_nonneg hpos.le (by linarith)⟩
+  have hds : ∀ x : V3 K, (x.sub p).normSq = dsq3 p x := by
+    intro x; simp only [V3.normSq, V3.dot, V3.sub, dsq3]; ring
+  refine ⟨ρ, d, τ, _, _, h0, h2, hd, hx, hz, t0, t1, hP, hvar, hopt, hmem, rfl, ?_⟩
+  rcases hc with ⟨a, b, e⟩ | ⟨na, ⟨hIN, ⟨hsol, e⟩ | ⟨hsol, hlt, e⟩ | ⟨hsol, hlt, e⟩⟩ | ⟨hnIN, e⟩⟩
+  · exact Or.inl ⟨a, b, e⟩
+  · exact Or.inr (Or.inl ⟨na, hin.mp hIN, hsol, e⟩)
+  · rw [hds, hds] at hlt
+    exact Or.inr (Or.inr (Or.inl ⟨na, hin.mp hIN, hsol, hlt, e⟩))
+  · rw [hds, hds] at hlt
+    exact Or.inr (Or.inr (Or.inr (Or.inl ⟨na, hin.mp hIN, hsol, not_lt.mp hlt, e⟩)))
+  · refine Or.inr (Or.inr (Or.inr (Or.inr ⟨na, fun hm => hnIN (hin.mpr hm), ?_⟩)))
+    rw [e]
+    have hflag : ((⟨⟨0, s.hh, 0⟩, ⟨d.x * s.r, -s.hh, d.y * s.r⟩⟩ : Segment3 K).projectLoc p).1.inside
+        = V3.relEq ((⟨⟨0, s.hh, 0⟩, ⟨d.x * s.r, -s.hh, d.y * s.r⟩⟩ : Segment3 K).projectLoc p).1.pt p := by
+      simp only [Segment3.projectLoc]
+      split_ifs <;> rfl
+    cases hpp : ((⟨⟨0, s.hh, 0⟩, ⟨d.x * s.r, -s.hh, d.y * s.r⟩⟩ : Segment3 K).projectLoc p).1 with
+    | mk ins pt => rw [hpp] at hflag; simp only at hflag ⊢; rw [hflag]
+
+/-- the point `(r τ·d, hh - 2hh τ)` of the slanted segment is a member of the cone, on its lateral surface -/
+private theorem cone_slant_bnd (s : Cone K) (d : V2 K) (τ : K) (hd : d.x * d.x + d.y * d.y = 1) (t0 : 0 ≤ τ) (t1 : τ ≤ 1)
+    (hh0 : 0 < s.hh) :
+    ConeBnd sq s ⟨d.x * s.r * τ, s.hh - 2 * s.hh * τ, d.y * s.r * τ⟩ := by
+  have e : (d.x * s.r * τ * (d.x * s.r * τ) + d.y * s.r * τ * (d.y * s.r * τ)) * (2 * s.hh * (2 * s.hh))
+      = s.r * s.r * ((s.hh - (s.hh - 2 * s.hh * τ)) * (s.hh - (s.hh - 2 * s.hh * τ))) := by
+    linear_combination (s.r * s.r * τ * τ * (2 * s.hh * (2 * s.hh))) * hd
+  simp only [ConeBnd, Cone.Mem, fieldNum_two]
+  exact ⟨⟨⟨by nlinarith, by nlinarith⟩, le_of_eq e⟩, Or.inr e⟩
+
+/-- **inside flag** (cone): a member is reported inside; conversely the flag is raised only for a member or — because an
+outside point gets the `relative_eq!` flag of the segment projection — for a point within `ε = 2⁻⁵²` (coordinate-wise,
+absolute or relative) of its own projection. -/
+theorem cone_inside_spec (hs : LawfulSqrt sq) (s : Cone K) (p : V3 K) (solid : Bool) (hok : ConeOk s) (hrad : RadOk p) :
+    letI := fieldNum K sq
+    (s.Mem p → (s.project p solid).inside = true) ∧
+    ((s.project p solid).inside = true → s.Mem p ∨
+      (RelClose (s.project p solid).pt.x p.x ∧ RelClose (s.project p solid).pt.y p.y ∧ RelClose (s.project p solid).pt.z p.z)) := by
+  letI := fieldNum K sq
+  obtain ⟨ρ, d, τ, Ppt, Pin, h0, h2, hd, hx, hz, t0, t1, hP, hvar, hopt, hmem, hPin, hc⟩ := cone_shape sq hs s p solid hok hrad
+  rcases hc with ⟨a, b, e⟩ | ⟨_, hm, _, e⟩ | ⟨_, hm, _, _, e⟩ | ⟨_, hm, _, _, e⟩ | ⟨_, hnm, e⟩ <;> rw [e]
+  · have hnm : ¬ s.Mem p := fun hm => by have := (hmem.mp hm).1.1; linarith
+    exact ⟨fun hm => absurd hm hnm, fun h => absurd h (by simp)⟩
+  · exact ⟨fun _ => rfl, fun _ => Or.inl hm⟩
+  · exact ⟨fun _ => rfl, fun _ => Or.inl hm⟩
+  · exact ⟨fun _ => rfl, fun _ => Or.inl hm⟩
+  · refine ⟨fun hm => absurd hm hnm, fun h => Or.inr ?_⟩
+    simp only [hPin, V3.relEq, Bool.and_eq_true, relEq_iff, and_assoc] at h
+    exact h
+
+/-- **membership and boundary** (cone): the projection is a point of the cone; with `solid = false`, or for an outside point, it
+lies on the base or on the lateral surface. -/
+theorem cone_project_mem (hs : LawfulSqrt sq) (s : Cone K) (p : V3 K) (solid : Bool) (hok : ConeOk s) (hrad : RadOk p) :
+    letI := fieldNum K sq
+    s.Mem (s.project p solid).pt ∧ ((solid = false ∨ ¬ s.Mem p) → ConeBnd sq s (s.project p solid).pt) := by
+  letI := fieldNum K sq
+  have he := eps_pos (K := K)
+  have hr0 : 0 ≤ s.r := le_trans he.le hok.2
+  have hh0 := hok.1
+  obtain ⟨ρ, d, τ, Ppt, Pin, h0, h2, hd, hx, hz, t0, t1, hP, hvar, hopt, hmem, hPin, hc⟩ := cone_shape sq hs s p solid hok hrad
+  have hslant := cone_slant_bnd sq s d τ hd t0 t1 hh0
+  -- a point of the base disc
+  have hbase : ρ ≤ s.r → ConeBnd sq s ⟨p.x, -s.hh, p.z⟩ := by
+    intro hρ
+    have : p.x * p.x + p.z * p.z ≤ s.r * s.r := by rw [← h2]; exact mul_self_le_mul_self h0 hρ
+    simp only [ConeBnd, Cone.Mem, fieldNum_two]
+    refine ⟨⟨⟨le_refl _, by linarith⟩, ?_⟩, Or.inl trivial⟩
+    have e : s.hh - -s.hh = 2 * s.hh := by ring
+    rw [e]
+    exact mul_le_mul_of_nonneg_right this (mul_self_nonneg _)
+  have hρr : s.Mem p → ρ ≤ s.r := by
+    intro hm
+    obtain ⟨⟨a, b⟩, c⟩ := hmem.mp hm
+    by_contra hcon; push Not at hcon
+    nlinarith
+  rcases hc with ⟨a, b, e⟩ | ⟨_, hm, hsol, e⟩ | ⟨_, hm, _, _, e⟩ | ⟨_, hm, _, _, e⟩ | ⟨_, hnm, e⟩ <;> rw [e]
+  · exact ⟨(hbase b).1, fun _ => hbase b⟩
+  · refine ⟨hm, fun h => ?_⟩
+    rcases h with h | h
+    · rw [hsol] at h; exact absurd h (by simp)
+    · exact absurd hm h
+  · exact ⟨(hbase (hρr hm)).1, fun _ => hbase (hρr hm)⟩
+  · rw [hP]; exact ⟨hslant.1, fun _ => hslant⟩
+  · rw [hP]; exact ⟨hslant.1, fun _ => hslant⟩
+
+/-- every member `q` of the cone is dominated, in the radial direction `d`, by the slanted-segment point at its own height:
+`d·q_xz ≤ r·t` with `t = (hh - q.y)/(2hh) ∈ [0,1]` -/
+private theorem cone_member_radial (s : Cone K) (q : V3 K) (d : V2 K) (hd : d.x * d.x + d.y * d.y = 1)
+    (hh0 : 0 < s.hh) (hr0 : 0 ≤ s.r) :
+    letI := fieldNum K sq
+    s.Mem q → ∃ t : K, 0 ≤ t ∧ t ≤ 1 ∧ q.y = s.hh - 2 * s.hh * t ∧ q.x * q.x + q.z * q.z ≤ (s.r * t) * (s.r * t) ∧
+      d.x * q.x + d.y * q.z ≤ s.r * t := by
+  letI := fieldNum K sq
+  simp only [Cone.Mem, fieldNum_two]
+  rintro ⟨⟨a, b⟩, c⟩
+  have h2 : (2 : K) * s.hh ≠ 0 := by positivity
+  have ht := div_mul_cancel₀ (s.hh - q.y) h2
+  have ht0 : 0 ≤ (s.hh - q.y) / (2 * s.hh) := div_nonneg (by linarith) (by positivity)
+  have ht1 : (s.hh - q.y) / (2 * s.hh) ≤ 1 := by rw [div_le_one (by positivity)]; linarith
+  generalize (s.hh - q.y) / (2 * s.hh) = t at *
+  have hq : q.x * q.x + q.z * q.z ≤ (s.r * t) * (s.r * t) := by
+    have e : s.r * s.r * ((s.hh - q.y) * (s.hh - q.y)) = (s.r * t) * (s.r * t) * (2 * s.hh * (2 * s.hh)) := by rw [← ht]; ring
+    rw [e] at c
+    exact le_of_mul_le_mul_right c (by positivity)
+  refine ⟨t, ht0, ht1, by linarith, hq, ?_⟩
+  have := dot_le2 d.x d.y q.x q.z 1 (s.r * t) (by linarith) hq zero_le_one (mul_nonneg hr0 ht0)
+  linarith
+
+/-- **optimality w.r.t. the solid cone**: for `solid = true`, or for a point outside, no point of the cone is closer than the
+projection (base disc below the base, slanted segment — apex, lateral surface, rim — elsewhere). -/
+theorem cone_project_optimal (hs : LawfulSqrt sq) (s : Cone K) (p q : V3 K) (solid : Bool) (hok : ConeOk s) (hrad : RadOk p) :
+    letI := fieldNum K sq
+    s.Mem q → (solid = true ∨ ¬ s.Mem p) → dsq3 p (s.project p solid).pt ≤ dsq3 p q := by
+  letI := fieldNum K sq
+  intro hq hcnd
+  have he := eps_pos (K := K)
+  have hr0 : 0 ≤ s.r := le_trans he.le hok.2
+  have hrpos : 0 < s.r := lt_of_lt_of_le he hok.2
+  have hh0 := hok.1
+  obtain ⟨ρ, d, τ, Ppt, Pin, h0, h2, hd, hx, hz, t0, t1, hP, hvar, hopt, hmem, hPin, hc⟩ := cone_shape sq hs s p solid hok hrad
+  obtain ⟨t, ht0, ht1, hqy, hqr, hdq⟩ := cone_member_radial sq s q d hd hh0 hr0 hq
+  rcases hc with ⟨a, b, e⟩ | ⟨_, hm, hsol, e⟩ | ⟨_, hm, hsol, _, e⟩ | ⟨_, hm, hsol, _, e⟩ | ⟨na, hnm, e⟩ <;> rw [e]
+  · -- below the base disc
+    apply opt_of_var3; simp only []
+    nlinarith [mul_nonneg (by linarith : 0 ≤ -s.hh - p.y) (by nlinarith : 0 ≤ q.y - -s.hh)]
+  · simp only [dsq3]
+    nlinarith [mul_self_nonneg (p.x - q.x), mul_self_nonneg (p.y - q.y), mul_self_nonneg (p.z - q.z)]
+  · exfalso; rcases hcnd with h | h
+    · rw [hsol] at h; exact absurd h (by simp)
+    · exact h hm
+  · exfalso; rcases hcnd with h | h
+    · rw [hsol] at h; exact absurd h (by simp)
+    · exact h hm
+  · -- outside: projection on the slanted segment
+    rw [hP]
+    apply opt_of_var3; simp only []
+    -- the radial component of `p - P` is non-negative
+    have hα : 0 ≤ ρ - s.r * τ := by
+      by_contra hcon; push Not at hcon
+      have hτ : 0 < τ := by
+        by_contra h'; push Not at h'
+        have : τ = 0 := le_antisymm h' t0
+        rw [this] at hcon; linarith
+      have hX : 0 ≤ (ρ - s.r * τ) * s.r - 2 * s.hh * (p.y - s.hh + 2 * s.hh * τ) := by
+        have hv0 := hvar 0 (le_refl _) zero_le_one
+        by_contra h'; push Not at h'
+        have := mul_pos_of_neg_of_neg (neg_neg_of_pos hτ) h'
+        have e : (0 - τ) * ((ρ - s.r * τ) * s.r - 2 * s.hh * (p.y - s.hh + 2 * s.hh * τ))
+            = -τ * ((ρ - s.r * τ) * s.r - 2 * s.hh * (p.y - s.hh + 2 * s.hh * τ)) := by ring
+        rw [e] at hv0; linarith
+      have hαr := mul_neg_of_neg_of_pos hcon hrpos
+      have hβ : p.y - s.hh + 2 * s.hh * τ < 0 := by
+        by_contra h'; push Not at h'
+        have := mul_nonneg (by linarith : (0 : K) ≤ 2 * s.hh) h'
+        linarith
+      have a1 := mul_neg_of_pos_of_neg (by linarith : (0 : K) < 2 * s.hh) hcon
+      have a2 := mul_pos hrpos (neg_pos.2 hβ)
+      have hslant : 2 * s.hh * ρ ≤ s.r * (s.hh - p.y) := by linarith
+      have a3 := mul_nonneg (by linarith : (0 : K) ≤ 2 * s.hh) t0
+      by_cases hy : -s.hh ≤ p.y
+      · exact hnm (hmem.mpr ⟨⟨hy, by linarith⟩, hslant⟩)
+      · push Not at hy
+        have a4 := mul_le_of_le_one_right hr0 t1
+        exact na ⟨hy, by linarith⟩
+    have hv := hvar t ht0 ht1
+    rw [hx, hz, hqy]
+    have e1 : (d.x * ρ - d.x * s.r * τ) * (q.x - d.x * s.r * τ) + (p.y - (s.hh - 2 * s.hh * τ)) * (s.hh - 2 * s.hh * t - (s.hh - 2 * s.hh * τ))
+        + (d.y * ρ - d.y * s.r * τ) * (q.z - d.y * s.r * τ)
+        = (t - τ) * ((ρ - s.r * τ) * s.r - 2 * s.hh * (p.y - s.hh + 2 * s.hh * τ))
+          + (ρ - s.r * τ) * ((d.x * q.x + d.y * q.z) - s.r * t) := by
+      linear_combination (-(ρ - s.r * τ) * s.r * τ) * hd
+    rw [e1]
+    have := mul_nonpos_of_nonneg_of_nonpos hα (sub_nonpos.2 hdq)
+    linarith
+
+/-- **optimality w.r.t. the surface** (any flag; this is the clause for `solid = false` and an interior point): no point of the
+base disc or of the lateral surface is closer than the projection. -/
+theorem cone_project_optimal_boundary (hs : LawfulSqrt sq) (s : Cone K) (p q : V3 K) (solid : Bool) (hok : ConeOk s) (hrad : RadOk p) :
+    letI := fieldNum K sq
+    ConeBnd sq s q → dsq3 p (s.project p solid).pt ≤ dsq3 p q := by
+  letI := fieldNum K sq
+  intro hq
+  by_cases hcnd : solid = true ∨ ¬ s.Mem p
+  · exact cone_project_optimal sq hs s p q solid hok hrad hq.1 hcnd
+  · push Not at hcnd
+    have he := eps_pos (K := K)
+    have hr0 : 0 ≤ s.r := le_trans he.le hok.2
+    have hh0 := hok.1
+    obtain ⟨ρ, d, τ, Ppt, Pin, h0, h2, hd, hx, hz, t0, t1, hP, hvar, hopt, hmem, hPin, hc⟩ := cone_shape sq hs s p solid hok hrad
+    obtain ⟨hqm, hqf⟩ := hq
+    obtain ⟨t, ht0, ht1, hqy, hqr, hdq⟩ := cone_member_radial sq s q d hd hh0 hr0 hqm
+    obtain ⟨⟨m1, m2⟩, m3⟩ := hmem.mp hcnd.2
+    -- both candidates bound the distance to any surface point
+    have key : dsq3 p ⟨p.x, -s.hh, p.z⟩ ≤ dsq3 p q ∨ dsq3 p Ppt ≤ dsq3 p q := by
+      rcases hqf with e | e
+      · left
+        simp only [dsq3]; rw [e]
+        nlinarith [mul_self_nonneg (p.x - q.x), mul_self_nonneg (p.z - q.z)]
+      · right
+        refine le_trans (hopt t ht0 ht1) ?_
+        -- on the lateral surface `|q_xz| = r t`; rotating `q` into the half-plane of `p` does not increase the distance
+        have hqeq : q.x * q.x + q.z * q.z = (s.r * t) * (s.r * t) := by
+          have h2' : (2 : K) * s.hh ≠ 0 := by positivity
+          have e' : s.r * s.r * ((s.hh - q.y) * (s.hh - q.y)) = (s.r * t) * (s.r * t) * (2 * s.hh * (2 * s.hh)) := by rw [hqy]; ring
+          rw [e'] at e
+          exact mul_right_cancel₀ (mul_ne_zero h2' h2') e
+        simp only [dsq3]
+        rw [hx, hz, hqy]
+        have hnn := mul_nonneg h0 (sub_nonneg.2 hdq)
+        have e2 : ((d.x * ρ - q.x) * (d.x * ρ - q.x) + (p.y - (s.hh - 2 * s.hh * t)) * (p.y - (s.hh - 2 * s.hh * t)) + (d.y * ρ - q.z) * (d.y * ρ - q.z))
+            - ((d.x * ρ - d.x * s.r * t) * (d.x * ρ - d.x * s.r * t) + (p.y - (s.hh - 2 * s.hh * t)) * (p.y - (s.hh - 2 * s.hh * t))
+              + (d.y * ρ - d.y * s.r * t) * (d.y * ρ - d.y * s.r * t))
+            = 2 * (ρ * (s.r * t - (d.x * q.x + d.y * q.z))) := by
+          linear_combination hqeq + (2 * ρ * s.r * t - s.r * t * (s.r * t)) * hd
+        linarith
+    rcases hc with ⟨a, b, e⟩ | ⟨_, hm, hsol, e⟩ | ⟨_, hm, hsol, hlt, e⟩ | ⟨_, hm, hsol, hle, e⟩ | ⟨na, hnm, e⟩ <;> rw [e]
+    · linarith
+    · exact absurd hsol hcnd.1
+    · rcases key with k | k
+      · exact k
+      · exact le_trans hlt.le k
+    · rcases key with k | k
+      · exact le_trans hle k
+      · exact k
+    · exact absurd hcnd.2 hnm
+
+example : ConeOk (⟨1, 2⟩ : Cone ℚ) ∧ RadOk (⟨1, 0, 0⟩ : V3 ℚ) ∧ RadOk (⟨0, 5, 0⟩ : V3 ℚ)
+    ∧ ConeBnd (fun x => x) (⟨1, 2⟩ : Cone ℚ) ⟨1, 0, 0⟩ := by
+  simp only [ConeOk, RadOk, ConeBnd, Cone.Mem, fieldNum_two]; norm_num
+
 end C05
